@@ -261,8 +261,11 @@ package tmstate
 //@   ensures result2 == nil ==> sminit(0) && result0 == smh(0) && result1 == smr(0)
 //@   ensures result2 == tmstore.ErrStoreUninitialized ==> !sminit(0)
 //@   modifies nothing
+// finVals(h): the validators recorded in the finalization of height h (the store never overwrites a finalization: C16).
+//@ spec finVals(h mathint) []tmconsensus.Validator
 //@ iface tmstore.FinalizationStore.LoadFinalizationByHeight(st, ctx, height)
 //@   ensures (result4 == nil) == finalized(height)
+//@   ensures result4 == nil ==> result2.Validators == finVals(height)
 //@   modifies nothing
 
 // The first round entrance after a start is the recorded position, or round 0 of the next height when the recorded
@@ -272,11 +275,16 @@ package tmstate
 //@     (finalized(smh(0)) ? (v.H == smh(0) + 1 && v.R == 0) : (v.H == smh(0) && v.R == smr(0)))
 
 //@ func StateMachine.sendInitialActionSet
-//@   property C10
+//@   property C10 C07
 //@   option explicit-panics allowed
 //@   requires m.smStore != nil && m.fStore != nil && m.hashScheme != nil
 //@   requires smh(0) < MAXU64 && m.genesis.InitialHeight < MAXU64
 //@   site reqresp roundEntranceOutCh resumes-at-recorded-position: resumePoint(reqValue, m.genesis.InitialHeight)
+//@   requires recorded-height-is-not-below-the-initial-height: m.genesis.InitialHeight >= 1 && (sminit(0) ==> smh(0) >= m.genesis.InitialHeight)
+//@   site reqresp roundEntranceOutCh resumes-with-the-validators-of-the-announced-height:
+//@       (reqValue.H == m.genesis.InitialHeight ==> rlc.CurValSet.Validators == m.genesis.ValidatorSet.Validators) &&
+//@       (reqValue.H != m.genesis.InitialHeight ==> rlc.CurValSet.Validators == finVals(reqValue.H - 2)) &&
+//@       (reqValue.H > m.genesis.InitialHeight + 1 ==> rlc.PrevValSet.Validators == finVals(reqValue.H - 3))
 //@   rely after roundEntranceOutCh responder-does-not-close-the-response-channel: !chanclosed(initRE.Response)
 //@   option frame off
 //@   modifies heap
